@@ -231,6 +231,39 @@ def run(ctx):
                     rep.violation("corr:starts311:%d.%d:%s" % (v[0], v[1], h), "Model of findlinestarts over co_lines disagrees with implementation on %s: impl %s model %s"
                                   % (inp, fl, want_model), dict(inp, impl=fl, model=want_model), found_input=False)
         rep.sample({"version": [3, 11], "entries": ecs[0][0], "linetable": enc[0], "co_lines": outs[0]})
+        # ------------------------------------------------ the same object after it was moved to another first line
+        # (line tables hold deltas: replace(co_firstlineno=...) or assignment shifts every line; a table decoded
+        # before the move must not be served afterwards)
+        reloc = []
+        for v in [(2, 7), (3, 6), (3, 8), (3, 9)]:
+            for _ in range(3):
+                tab, total = gen_lines.lnotab(rng, signed=v >= (3, 6))
+                if v < (3, 6):
+                    tab = bytes(b if j % 2 == 0 or b < 128 else b - 128 for j, b in enumerate(tab))
+                reloc.append((v, tab, total + 2 + (total % 2)))
+        for _ in range(4):
+            tab, total = gen_lines.table310(rng)
+            reloc.append(((3, 10), tab, total))
+        for (es, units), h in list(zip(ecs, enc))[:6]:
+            for v in [(3, 11), (3, 12), (3, 13)]:
+                reloc.append((v, bytes.fromhex(h.replace("-", "")), units * 2))
+        for v, tab, clen in reloc:
+            r = w.r("linestarts_relocate", version=list(v), first=300, delta=1000, code_len=clen, tab=tab.hex())
+            rep.count(1, ("relocate", v, tab))
+            inp = {"version": list(v), "first": 300, "moved_to": 1300, "code_len": clen, "table": tab.hex()}
+            if "fresh" not in r:
+                rep.violation("relocate:%d.%d:%s" % (v[0], v[1], tab.hex()), "moving a portable code object failed on %s: %s" % (inp, r), inp)
+                continue
+            for how in ("replace", "assign"):
+                if r[how] != r["fresh"]:
+                    rep.violation("relocate:%d.%d:%s:%s" % (v[0], v[1], how, tab.hex()),
+                                  "findlinestarts after %s differs from a fresh object at the new first line on %s: %s vs %s"
+                                  % ("code.replace(co_firstlineno=1300)" if how == "replace" else "code.co_firstlineno = 1300", inp, fmt_starts(r[how])[:200], fmt_starts(r["fresh"])[:200]),
+                                  dict(inp, call="findlinestarts(co); co2 = co.%s; findlinestarts(co2)" % how, actual=r[how], expected=r["fresh"]))
+                    break
+            if r["original_after_replace"] != r["before"]:
+                rep.violation("relocate:%d.%d:original:%s" % (v[0], v[1], tab.hex()), "replace() changed the lines of the ORIGINAL object on %s" % inp,
+                              dict(inp, before=r["before"], after=r["original_after_replace"]))
         # ------------------------------------------------ offset2line
         qs = []
         for _ in range(N * 3):
